@@ -86,6 +86,13 @@ class EngineC18:
         for idx in itertools.product(*[range(s) for s in shape]):
             if g.random() >= zero_frac:
                 x[idx] = round(g.uniform(0.2, 3.0), 6) if (apr or alg == "gcp_lbfgsb") else round(g.uniform(-2.0, 2.0), 6)
+        if sw.random() < 0.15 and max(shape) >= 2:
+            # a mode in which at least half of the slices are empty (the sparse code paths then see short results)
+            d = sw.choice([n for n in range(N) if shape[n] >= 2])
+            for j in sw.sample(range(shape[d]), (shape[d] + 1) // 2):
+                sl = [slice(None)] * N
+                sl[d] = j
+                x[tuple(sl)] = 0.0
         if apr and sw.random() < 0.35:
             # genuine count data, held in integer storage (dense array / sparse values of dtype int64)
             x = np.ceil(x * 2.0)
@@ -639,7 +646,10 @@ class EngineC18:
             fa, fb = base["fit"], other["fit"]
             # the reported fit is 1 - sqrt(|cancelled quantity|)/||X||: for near-exact fits compare the
             # squared residuals, which is what is actually computed
-            close = abs(fa - fb) <= FIT_TOL or abs((1 - fa) ** 2 - (1 - fb) ** 2) <= 1e-9
+            # (1e-6 on the squared relative residual: the two runs may evaluate it by different formulas -- CP-ALS
+            # recomputes the final fit only when it prints -- and for models whose components cancel the evaluation
+            # error is eps * ||components||^2 / ||X||^2, observed 2.8e-8 for rank 3 on rank-1 data)
+            close = abs(fa - fb) <= FIT_TOL or abs((1 - fa) ** 2 - (1 - fb) ** 2) <= 1e-6
             if not close and not (np.isnan(fa) and np.isnan(fb)):
                 return V("same_fit", f"fit {fa!r} vs {fb!r}")
         return None
